@@ -225,8 +225,21 @@ func cmdCheck(args []string) int {
 	mathOK := 0
 	var mathBad []string
 	for _, ml := range cfg.MathLemmas {
-		out, _ := exec.Command("z3", "-T:30", filepath.Join(verifRoot, "specs", "mathlemmas", ml)).CombinedOutput()
-		if strings.TrimSpace(strings.SplitN(string(out), "\n", 2)[0]) == "unsat" {
+		// integer lemmas are small: try each installed solver in turn (they differ on nonlinear div/mod)
+		proved := false
+		file := filepath.Join(verifRoot, "specs", "mathlemmas", ml)
+		for _, argv := range [][]string{{"z3-new", "-T:20", file}, {"cvc5", "--tlimit=20000", file}, {"z3", "-T:20", file}} {
+			out, _ := exec.Command(argv[0], argv[1:]...).CombinedOutput()
+			for _, line := range strings.Split(string(out), "\n") {
+				if strings.TrimSpace(line) == "unsat" {
+					proved = true
+				}
+			}
+			if proved {
+				break
+			}
+		}
+		if proved {
 			mathOK++
 		} else {
 			mathBad = append(mathBad, ml)
